@@ -76,12 +76,6 @@ Proof. unfold fillc. destruct (w <? nq); discriminate. Qed.
 Definition padded (P : nat) (s : str) : str := rep P cSP ++ s ++ rep P cSP.
 Definition op_content (P : nat) (o : op) (w : nat) : list str := map (padded P) (op_labels o w).
 
-Definition text_ok (o : op) : Prop :=
-  match o with
-  | Gate name al _ _ => ~ In cLT (gate_text name al)
-  | Meas _ _ => True
-  end.
-
 Lemma noLT_padded P s : ~ In cLT s -> ~ In cLT (padded P s).
 Proof.
   intros H I. unfold padded in I. rewrite !in_app_iff in I.
